@@ -93,6 +93,10 @@ def run(prog):
                     t_ = strip(t_)
                     if t_ == cur or (isinstance(t_, tuple) and t_ and t_[0] == "const"):
                         return True
+                    if isinstance(t_, tuple) and t_ and t_[0] == "field" and t_[2] == "0":
+                        return plain_arith(t_[1])        # (a AddWithOverflow b).0
+                    if isinstance(t_, tuple) and t_ and t_[0] == "cast":
+                        return plain_arith(t_[2])
                     return isinstance(t_, tuple) and bool(t_) and t_[0] == "bin" and plain_arith(t_[2]) and plain_arith(t_[3])
                 if mir.is_call(c, "smooth_helper") and c[2][3] == ("param", 4) and not (lvl_calls & {"value_usize", "value", "new_usize"}) and \
                         not plain_arith(c[2][2]):
